@@ -788,6 +788,13 @@ fn function_doc(trivia: &Trivia, function: &Function) -> Doc {
 /// or `@(type) { body }` (the parenthesised arm accepts any type).
 fn spawn_doc(trivia: &Trivia, func: &Term) -> Doc {
     match func {
+        // The `@{ … }` / `@(type) { … }` sugar has no place for type parameters or a return type: a
+        // function that has either keeps the general `@#…` form.
+        Term::Function(function)
+            if !function.type_parameters.is_empty() || function.return_type.is_some() =>
+        {
+            pretty::concat(vec![pretty::text("@"), function_doc(trivia, function)])
+        }
         Term::Function(function) => {
             let head = match &function.parameter_type {
                 None => "@".to_string(),
